@@ -505,12 +505,46 @@ def _past_coeffs(ast, coef=1.0, out=None):
 
 
 @predicate("F-10a")
-def negated_past_term(case):
+def past_term_nested_in_product_or_negated(case):
     """a delayed term with a negative numeric coefficient next to other additive terms (x' = p - x(t-tau),
-    x' = p - 0.5*past(x,tau), -x - x(t-tau)): the code generator expects the past() call itself where it finds
-    c*past(...) and compilation fails (TypeError 'Cannot convert expression to float' / KeyError).  The forms
-    x' = -x(t-tau) and x' = p - a*x(t-tau) (parameter coefficient) compile."""
+    x' = p - 0.5*past(x,tau)) or multiplied with an instantaneous variable (x' = p + 0.5*past(x,tau)*w): the code
+    generator expects the past() call itself where it finds a product containing it and compilation fails (TypeError
+    'Cannot convert expression to float' / KeyError).  Forms such as x' = -x(t-tau), x' = p - a*x(t-tau) and
+    x' = p + 0.5*x(t-tau) compile."""
     for ast in _all_asts(case):
-        if any(c is not None and c < 0 for c in _past_coeffs(ast)):
+        if any(c is None or c < 0 for c in _past_coeffs(ast)):
+            return True
+    return False
+
+
+def _model_funcs(case):
+    from . import expr as E
+    f = set()
+    for ast in _all_asts(case):
+        f |= E.funcs_used(ast)
+    return f
+
+
+@predicate("F-12a")
+def derivative_needs_unimported_function(case):
+    """Jacobian of a model that uses sin, cos, sinh or cosh: the derivative introduces the companion function, which
+    the generated Jacobian module imports only in some constellations (e.g. not when the companion is absent from the
+    model or only applied to constants): NameError when the Jacobian function is called"""
+    return bool(_model_funcs(case) & {"sin", "cos", "sinh", "cosh"})
+
+
+@predicate("F-12d")
+def derivative_of_function_unknown_to_sympy(case):
+    """Jacobian of a model that uses arcsin, arccos, arctan or absv: these names are not sympy functions, their
+    derivative stays unevaluated and the affected Jacobian entries are silently set to 0"""
+    return bool(_model_funcs(case) & {"arcsin", "arccos", "arctan", "absv"})
+
+
+@predicate("F-12c")
+def instantaneous_jacobian_entry_with_delayed_factor(case):
+    """a delayed term multiplied with an instantaneous state variable (past(x,tau)*w): the entry of J0 with respect to
+    w still contains the delayed factor, for which the Jacobian function defines no variable (NameError _past_...)"""
+    for ast in _all_asts(case):
+        if any(c is None for c in _past_coeffs(ast)):
             return True
     return False
